@@ -86,16 +86,50 @@ def session_jobs(ctx):
             if full:
                 chosen = allp
             else:
-                wf = [x for x in allp if x[0].endswith(':wf')]
-                rest = [x for x in allp if not x[0].endswith(':wf')]
-                chosen = wf + rng.sample(rest, 170)
+                def core_variant(label):
+                    v = label.split(':', 1)[1]
+                    return v in ('wf', 'ext1', 'ext3') or v.startswith('type')
+                wf = [x for x in allp if core_variant(x[0])]
+                # plus, per message, the body cut in half and cut by one byte
+                by_msg = {}
+                for x in allp:
+                    name, v = x[0].split(':', 1)
+                    if v.startswith('trunc'):
+                        by_msg.setdefault(name, []).append(x)
+                for name, tr in by_msg.items():
+                    wf += [tr[len(tr) // 2], tr[-1]] if len(tr) > 1 else tr
+                keys = {x[0] for x in wf}
+                rest = [x for x in allp if x[0] not in keys]
+                chosen = wf + rng.sample(rest, 150)
             rng.shuffle(chosen)
             per = 40
             for i in range(0, len(chosen), per):
                 part = chosen[i:i + per]
                 jobs.append({'kind': 'session', 'role': role, 'phase': phase, 'seed': rng.randint(0, 10 ** 6),
-                             'chunk': rng.choice([None, None, None, 1, 7]), 'alarm': 12,
+                             'chunk': rng.choice([None, None, None, 1, 7]), 'alarm': 10,
                              'labels': [l for l, _ in part], 'payloads': [p.hex() for _, p in part]})
+    return jobs
+
+
+def scenario_jobs(ctx):
+    """peer-chosen channel parameters followed through: a channel is opened with every combination of extreme
+    window / maximum packet size, then used, so that the send loop runs with them"""
+    M = H._imports()[1]
+    jobs = []
+    ext = [0, 1, 2 ** 31, 2 ** 32 - 1]
+    for w in ext:
+        for m in ext:
+            seq = [M.channel_open_session(7, w, m), M.channel_request_shell(0), M.channel_data(0, b'hello' * 4),
+                   M.window_adjust(0, 2 ** 32 - 1), M.channel_data(0, b'again'), M.window_adjust(0, 1), M.channel_eof(0)]
+            jobs.append({'kind': 'session', 'role': 'server', 'phase': 'authed', 'seed': 1, 'chunk': None, 'alarm': 10,
+                         'per_conn': len(seq), 'labels': ['open(window=%d,maxpkt=%d)' % (w, m), 'shell', 'data', 'adjust(2^32-1)',
+                                                          'data', 'adjust(1)', 'eof'],
+                         'payloads': [p.hex() for p in seq]})
+            seq = [M.window_adjust(0, 2 ** 32 - 1), M.channel_data(0, b'srv'), M.window_adjust(0, 1), M.channel_close(0)]
+            jobs.append({'kind': 'session', 'role': 'client', 'phase': 'chan', 'seed': 1, 'chunk': None, 'alarm': 10,
+                         'open_params': [w, m], 'per_conn': len(seq),
+                         'labels': ['confirm(window=%d,maxpkt=%d)+write, adjust(2^32-1)' % (w, m), 'data', 'adjust(1)', 'close'],
+                         'payloads': [p.hex() for p in seq]})
     return jobs
 
 
@@ -224,7 +258,25 @@ def run(ctx):
         'GSSAPI, X.509, PKCS#11, FIDO, X11 forwarding internals are outside',
     ]
     ctx.prove()
-    workers = 8 if ctx.tier == 'thorough' else 4
+    orig_fail = ctx.failing_input
+    ctx.cov['oracle']['failing_inputs'] = []
+
+    def failing_input(what, rp):
+        if len(ctx.cov['oracle']['failing_inputs']) < 80:
+            ctx.cov['oracle']['failing_inputs'].append(what[:400])
+        if ctx.violations >= 5:
+            ctx.log('   (further) ' + what[:300])
+        return orig_fail(what, rp)
+    ctx.failing_input = failing_input
+    orig_broke = ctx.broke
+    broke_names = {}
+
+    def broke(name, detail):
+        broke_names[name] = broke_names.get(name, 0) + 1
+        if broke_names[name] <= 2:
+            orig_broke(name, detail)
+    ctx.broke = broke
+    workers = 12 if ctx.tier == 'thorough' else 6
     n = 1500 if ctx.tier == 'thorough' else 300
     lim, lim_ok = live_limits()
     ctx.cov['live_limits'] = {'_MAX_BANNER_LINE_LEN': lim[0], '_MAX_BANNER_LINES': lim[1],
@@ -244,7 +296,7 @@ def run(ctx):
            'labels': ['packet_length=2^32-1'],
            'raw': [(b'SSH-2.0-Hostile_1.0\r\n' + H.u32(2 ** 32 - 1) + b'\x04\x02ig').hex()] + [(b'\xaa' * 16384).hex()] * 96}
     big_c = dict(big, role='client')
-    sess = session_jobs(ctx) + raw_jobs(ctx)
+    sess = scenario_jobs(ctx) + session_jobs(ctx) + raw_jobs(ctx)
     jobs = stage_jobs + banner + [big, big_c] + sess
     t0 = time.time()
     recs, hung, crashed = run_children(ctx, jobs, workers, 1500 if ctx.tier == 'thorough' else 420, 'c10')
@@ -327,12 +379,15 @@ def run(ctx):
                                'seed': ctx.seed, 'n': next((j['n'] for j in stage_jobs if j['stage'] == st), 0), 'tier': ctx.tier})
     # copy-data: work must be bounded by the source (the cap stands in for the disk filling up)
     if 'copy' in stage_res:
+        flagged = set()
         for cs in stage_res['copy']['cases']:
-            if cs.endswith('true))'):
-                ctx.failing_input('SFTP copy-data never finishes (source and destination the same file): stopped by the '
-                                  'harness cap, case (same, size, read offset, length, write offset, cap), (reads, written, capped) = ' + cs,
-                                  {'kind': 'copy_spin', 'case': cs, 'seed': ctx.seed, 'tier': ctx.tier})
-                break
+            same = cs.startswith('((true')
+            if cs.endswith('true))') and same not in flagged:
+                flagged.add(same)
+                ctx.failing_input('SFTP copy-data never finishes (%s): stopped by the harness cap on read calls; case (same file, '
+                                  'size, read offset, length, write offset, cap), (reads, bytes written, capped) = %s' %
+                                  ('source and destination are the same file' if same else 'DIFFERENT files', cs),
+                                  {'kind': 'copy_spin', 'same_file': same, 'case': cs, 'seed': ctx.seed, 'tier': ctx.tier})
 
     # ---- banner correspondence --------------------------------------------------------------------
     bcases = []
@@ -376,6 +431,10 @@ def run(ctx):
             continue
         for rec in recs.get(idx, []):
             first, count = rec['first'], rec['count']
+            if rec.get('skipped'):
+                ctx.count('skipped_after_three_blocked_event_loops', count, group='oracle')
+                hang_count += 1
+                continue
             sub = replay_of(job, first, count)
             key = '%s.%s' % (job['role'], job['phase'])
             if 'hang' in rec:
@@ -409,6 +468,8 @@ def run(ctx):
             if job.get('measure_alloc'):
                 judge_alloc(ctx, job, res)
                 continue
+            if res.get('hangs'):
+                hang_count += 1
             bad_ = H.judge(sub, res)
             if bad_:
                 nviol += 1
@@ -551,7 +612,8 @@ def replay(rp):
                 return 1
             if 'res' in rec:
                 if kind == 'copy_spin':
-                    still = [c for c in rec['res']['cases'] if c.endswith('true))')]
+                    still = [c for c in rec['res']['cases'] if c.endswith('true))') and
+                             c.startswith('((true') == bool(rp.get('same_file', True))]
                     print('replay: capped copy-data cases:', still[:2])
                     return 1 if still else 0
                 for func, data, exc in rec['res'].get('bad', []):
